@@ -123,9 +123,13 @@ class Solver(object):
         if use_solving_under_assumption:
             res = self.solve([formula])
         else:
-            self.add_assertion(formula)
-            res = self.solve()
-            self.pending_pop = True
+            try:
+                self.add_assertion(formula)
+                res = self.solve()
+            finally:
+                # The frame opened for the query is closed also when
+                # the query fails
+                self.pending_pop = True
 
         return res
 
